@@ -116,4 +116,6 @@ def close(a, b, rel=1e-9, scale=1.0):
     b = float(b)
     if not (np.isfinite(a) and np.isfinite(b)):
         return False
+    if scale < 1.0:  # caller asked for a comparison relative to a magnitude below 1
+        return abs(a - b) <= rel * max(abs(b), scale)
     return abs(a - b) <= rel * max(1.0, abs(b), scale)
